@@ -176,6 +176,11 @@ func (i *Index) Chunks(rid, beg, end int) ([]bgzf.Chunk, error) {
 	i.sort()
 	ref := i.Refs[rid]
 
+	if beg < 0 {
+		// A region that starts before the reference
+		// (a window around a position) starts at it.
+		beg = 0
+	}
 	iv := beg / TileWidth
 	if iv >= len(ref.Intervals) {
 		return nil, index.ErrInvalid
